@@ -1462,7 +1462,11 @@ main(int argc, char** argv)
   g_ops = std::fopen(argv[3], "w");
   g_out = std::fopen(argv[4], "w");
   g_orc = std::fopen((std::string(argv[4]) + ".oracle").c_str(), "w");
-  ::mkdir("/verif/build/out", 0777);
+  { // scratch files go next to the ops file (<build>/out/c07), whatever build directory the check uses
+    const std::string opsfile = argv[3];
+    const std::string::size_type slash = opsfile.rfind('/');
+    g_outdir = (slash == std::string::npos ? std::string(".") : opsfile.substr(0, slash)) + "/c07";
+  }
   ::mkdir(g_outdir.c_str(), 0777);
   g_outdir += "/s" + std::to_string(seed) + (thorough ? "t" : "q");
   ::mkdir(g_outdir.c_str(), 0777);
